@@ -185,9 +185,13 @@ def toObjEvent (t : Timing) (prevCa postCa : Json) (post : List (Nat × ClassO))
   | "repo_updated" => .repoUpdated
   | _ => .other
 
-/-- Signing inputs by the *model's* current roles, values from the observed sets of the same key. -/
-def mkIns (t : Timing) (o : CaObjects) (post : List (Nat × ClassO)) : IssueInputs := fun rcn =>
-  let f (s : KeyObjectSet) : IssueIn := ((findSetO post rcn s.crlName).map (issueInOf t)).getD { now := 300 }
+/-- Signing inputs by the *model's* current roles, values from the observed sets of the same key.
+A set that the observation after the op no longer has (the old set of a roll re-issued and then
+dropped by `KeyRollFinish` within one `pump`) was signed at the instant of the step (`clock`): with
+an arbitrary small instant its next-update would look overdue and the next non-forced re-issue of
+the class would be predicted although the code does none. -/
+def mkIns (t : Timing) (o : CaObjects) (post : List (Nat × ClassO)) (clock : Nat := 300) : IssueInputs := fun rcn =>
+  let f (s : KeyObjectSet) : IssueIn := ((findSetO post rcn s.crlName).map (issueInOf t)).getD { now := clock }
   match get? o rcn with
   | some (.current c) => (f c, f c)
   | some (.staging s c) => (f s, f c)
@@ -199,7 +203,7 @@ def preSaveStep (t : Timing) (o : CaObjects) (evs : List ObjEvent) (now : Nat) (
     Option (CaObjects × Bool) :=
   match applyEvents t o evs with
   | none => none
-  | some (o', force) => some (reIssue o' force now t (mkIns t o' post))
+  | some (o', force) => some (reIssue o' force now t (mkIns t o' post now))
 
 /-! ### Comparing model sets with observed sets -/
 
